@@ -102,6 +102,9 @@ func c20setPerm(v cty.Value, out []cty.Value) ([]int, bool) {
 // do executes one step.  ok=false: the op does not apply in this state (nothing
 // was executed).  A panic of the real code is reported as wire "" with ok=true.
 func (h *c20H) do(op *c20Op) (wire, golit string, ok bool) {
+	if strings.HasPrefix(op.name, "x") {
+		return h.c20xDo(op) // the entry points added by slice d20b (harness/c20_d2.go)
+	}
 	nv, ng := len(h.vals), len(h.gos)
 	vname := func(i int) string { return fmt.Sprintf("v%d", i) }
 	gname := func(i int) string { return fmt.Sprintf("g%d", i) }
